@@ -68,7 +68,7 @@ var RuleIdFileNameRegex = regexp.MustCompile(`^(\d{6})(?:-chain(\d+))?(?:\.ra)?$
 
 // RuleIdTestFileNameRegex matches the rule ID in a test file name (<id>.yaml).
 // The rule ID is captured in group 1, the optional extension in group 2.
-var RuleIdTestFileNameRegex = regexp.MustCompile(`^(\d{6})(?:\.ya?ml)?$`)
+var RuleIdTestFileNameRegex = regexp.MustCompile(`^(\d{6})\.ya?ml$`)
 
 // TestIdRegex matches any test_id line in test YAML files (test_id: <ID>).
 // Everything up to the value of the test ID is captured in group 1, test ID in group 2.
